@@ -242,34 +242,42 @@ TBReset ==
             dels |-> {}, fn |-> [i \in DOMAIN Ev.shapes |-> NormId(tab, DocLen(Ev.shapes[i]))]]
   /\ ix' = [multi |-> NoIndex, single |-> NoIndex, merged |-> NoIndex]
 
-BSegT(sg) == SumSeq([s \in BShapes |-> BCount(s, sg.first, sg.last) * DocLen(cs.shapes[s])])
-BSegDf(sg, w) == SumSeq([s \in BShapes |-> IF Tf(cs.shapes[s], w) > 0 THEN BCount(s, sg.first, sg.last) ELSE 0])
+\* c = the number of documents of every shape in the segment (computed once per segment: the pattern
+\* may be as long as the corpus)
+BSegCounts(sg) == [s \in BShapes |-> BCount(s, sg.first, sg.last)]
+BSegT(c) == SumSeq([s \in BShapes |-> c[s] * DocLen(cs.shapes[s])])
+BSegDf(c, w) == SumSeq([s \in BShapes |-> IF Tf(cs.shapes[s], w) > 0 THEN c[s] ELSE 0])
 
-BSegOk(sg) ==
+BSegOk(sg, c) ==
   /\ Chk(sg.consecutive /\ sg.first >= 1 /\ sg.last <= cs.nd /\ sg.max_doc = sg.last - sg.first + 1 /\ sg.num_docs = sg.max_doc,
          "big segment: not a run of consecutive documents")
-  /\ Chk(sg.T = BSegT(sg), "big segment: total_num_tokens")
-  /\ Chk({w \in cs.vocab : sg.df[w] # BSegDf(sg, w)} = {}, "big segment: doc_freq")
+  /\ Chk(sg.T = BSegT(c), "big segment: total_num_tokens")
+  /\ Chk({w \in cs.vocab : sg.df[w] # BSegDf(c, w)} = {}, "big segment: doc_freq")
   /\ Chk({j \in DOMAIN sg.fnids : ~(sg.fnids[j].shape \in BShapes /\ sg.fnids[j].ids = <<cs.fn[sg.fnids[j].shape]>>)} = {},
          "big segment: fieldnorm id of a shape is not the largest table entry <= its length")
-  /\ Chk({sg.fnids[j].shape : j \in DOMAIN sg.fnids} = {s \in BShapes : BCount(s, sg.first, sg.last) > 0},
+  /\ Chk({sg.fnids[j].shape : j \in DOMAIN sg.fnids} = {s \in BShapes : c[s] > 0},
          "big segment: shapes present")
+
+BIndexOk(sgs, counts) ==
+  /\ Chk(SumSeq([k \in DOMAIN sgs |-> sgs[k].max_doc]) = cs.nd
+         /\ Cardinality({sgs[k].first : k \in DOMAIN sgs}) = Len(sgs)
+         /\ {k \in DOMAIN sgs : sgs[k].first # 1 /\ {j \in DOMAIN sgs : sgs[j].last = sgs[k].first - 1} = {}} = {},
+         "big index: the segments do not partition the corpus")
+  /\ {k \in DOMAIN sgs : ~BSegOk(sgs[k], counts[k])} = {}
+
+BIndexState(sgs, counts) ==
+  [ok |-> TRUE,
+   st |-> [N |-> SumSeq([k \in DOMAIN sgs |-> sgs[k].max_doc]),
+           T |-> SumSeq([k \in DOMAIN sgs |-> BSegT(counts[k])]),
+           n |-> [w \in cs.vocab |-> SumSeq([k \in DOMAIN sgs |-> BSegDf(counts[k], w)])]],
+   alive |-> {},
+   segs |-> [k \in DOMAIN sgs |-> [first |-> sgs[k].first, last |-> sgs[k].last, cnt |-> counts[k]]]]
 
 TBIndex ==
   /\ Ev.ev = "bindex" /\ "big" \in DOMAIN cs
   /\ UNCHANGED <<tab, cs>>
-  /\ Chk(SumSeq([k \in DOMAIN Ev.segs |-> Ev.segs[k].max_doc]) = cs.nd
-         /\ Cardinality({Ev.segs[k].first : k \in DOMAIN Ev.segs}) = Len(Ev.segs)
-         /\ {k \in DOMAIN Ev.segs : Ev.segs[k].first # 1 /\ {j \in DOMAIN Ev.segs : Ev.segs[j].last = Ev.segs[k].first - 1} = {}} = {},
-         "big index: the segments do not partition the corpus")
-  /\ {k \in DOMAIN Ev.segs : ~BSegOk(Ev.segs[k])} = {}
-  /\ ix' = [ix EXCEPT !.multi =
-              [ok |-> TRUE,
-               st |-> [N |-> SumSeq([k \in DOMAIN Ev.segs |-> Ev.segs[k].max_doc]),
-                       T |-> SumSeq([k \in DOMAIN Ev.segs |-> BSegT(Ev.segs[k])]),
-                       n |-> [w \in cs.vocab |-> SumSeq([k \in DOMAIN Ev.segs |-> BSegDf(Ev.segs[k], w)])]],
-               alive |-> {},
-               segs |-> [k \in DOMAIN Ev.segs |-> [first |-> Ev.segs[k].first, last |-> Ev.segs[k].last]]]]
+  /\ ix' = [ix EXCEPT !.multi = BIndexState(Ev.segs, [k \in DOMAIN Ev.segs |-> BSegCounts(Ev.segs[k])])]
+  /\ BIndexOk(Ev.segs, [k \in DOMAIN ix'.multi.segs |-> ix'.multi.segs[k].cnt])
 
 \* all scores of one histogram are one value (or, for order-dependent sums, within the bound of the first)
 OneScore(hist, t) ==
@@ -280,7 +288,7 @@ BGroupOk(q, g, st) ==
   LET sg == ix.multi.segs[g.seg]
       d == cs.shapes[g.shape]
       t == ScoreTerm(q, d, st, <<>>, cs.fn[g.shape])
-      cnt == BCount(g.shape, sg.first, sg.last)
+      cnt == sg.cnt[g.shape]
   IN  /\ Chk(IsSome(t) /\ cnt > 0, "big: scores reported for documents that do not match")
       /\ Chk(g.coll # <<>> /\ SumSeq([j \in DOMAIN g.coll |-> g.coll[j].n]) = cnt, "big: the collector did not see every matching document of the shape")
       /\ Chk(g.top # <<>> /\ SumSeq([j \in DOMAIN g.top |-> g.top[j].n]) = cnt, "big: TopDocs(K >= all) did not return every matching document of the shape")
@@ -307,11 +315,11 @@ TBQuery ==
   /\ Chk(QueryOk(Ev.q), "query: malformed")
   /\ LET st == ix.multi.st
          matching == {s \in BShapes : Matches(Ev.q, cs.shapes[s])}
-         expected == {<<k, s>> \in (DOMAIN ix.multi.segs) \X matching : BCount(s, ix.multi.segs[k].first, ix.multi.segs[k].last) > 0}
+         expected == {<<k, s>> \in (DOMAIN ix.multi.segs) \X matching : ix.multi.segs[k].cnt[s] > 0}
      IN  /\ Chk(Ev.N = st.N, "stats: total_num_docs is not the sum of max_doc over the segments")
          /\ Chk(Ev.T = st.T, "stats: total_num_tokens is not the sum over the segments")
          /\ Chk({w \in cs.vocab : Ev.df[w] # st.n[w]} = {}, "stats: doc_freq is not the sum over the segments")
-         /\ Chk(Ev.nhits = SumSeq([s \in BShapes |-> IF s \in matching THEN BCountUpTo(s, cs.nd) ELSE 0]) /\ Ev.ntop = Ev.nhits,
+         /\ Chk(Ev.nhits = SumSeq([s \in BShapes |-> IF s \in matching THEN SumSeq([k \in DOMAIN ix.multi.segs |-> ix.multi.segs[k].cnt[s]]) ELSE 0]) /\ Ev.ntop = Ev.nhits,
                 "big: the number of matching documents is not what the query means")
          /\ Chk({<<Ev.groups[j].seg, Ev.groups[j].shape>> : j \in DOMAIN Ev.groups} = expected /\ Len(Ev.groups) = Cardinality(expected),
                 "big: the (segment, shape) groups with matches are not those the query means")
